@@ -33,6 +33,10 @@ def gen_schedule(rng, tier):
             init[t] += rows
             steps.append({"sql": f"insert into {t} values " + ", ".join(f"({k}, 0)" for k in rows)})
             script.append(("setup-insert", t, rows))
+    wiped = None
+    if rng.random() < 0.25:
+        # every row of one table is deleted before the pass: its compaction writes no row-set at all
+        wiped = rng.choice(["a", "b"])
     steps.append({"gate": ["compactor."]})
     script.append(("gate",))
     steps.append({"tick": 1000})
@@ -40,6 +44,13 @@ def gen_schedule(rng, tier):
     free = {t: list(init[t]) for t in init}      # initial keys no delete has claimed yet
     dcount = 0
     pend = []
+    if wiped:
+        dcount += 1
+        steps.insert(len(steps) - 2, {"spawn": {"name": "d1", "sql": f"delete from {wiped}"}, "idle_ms": 300, "wait_ms": 3000})
+        script.insert(len(script) - 2, ("spawn", "d1", wiped, list(init[wiped])))
+        steps.insert(len(steps) - 2, {"join": "d1", "timeout_ms": 6000})
+        script.insert(len(script) - 2, ("join", "d1"))
+        free[wiped] = []
     nrel = rng.randint(11, 14)
     for _ in range(nrel):
         for _ in range(rng.choice([0, 0, 1, 1, 2])):
@@ -78,6 +89,17 @@ def gen_schedule(rng, tier):
         script.append(("final", t))
     steps.append({"reopen": True})
     script.append(("reopen",))
+    for t in ("a", "b"):
+        steps.append({"sql": f"select k from {t}"})
+        script.append(("final2", t))
+    # a second reopen and new rows: ids handed out again after the reopens must not meet anything left over from the pass
+    steps.append({"reopen": True})
+    script.append(("reopen",))
+    for t in ("a", "b"):
+        rows = [nxt[t], nxt[t] + 1]
+        nxt[t] += 2
+        steps.append({"sql": f"insert into {t} values " + ", ".join(f"({k}, 2)" for k in rows)})
+        script.append(("insert-late", t, rows))
     for t in ("a", "b"):
         steps.append({"sql": f"select k from {t}"})
         script.append(("final2", t))
@@ -132,6 +154,12 @@ def analyse(R, h, out):
 
     for i, (sc, st, o) in enumerate(zip(h["script"], h["steps"], out)):
         k = sc[0]
+        if k == "insert-late":
+            if "ok" not in o:
+                R.property_fails(None, f"C09 step {i} `{st['sql'][:60]}` (after the second reopen) failed: {json.dumps(o)[:200]}", rep)
+                return []
+            inserted[sc[1]] += sc[2]
+            continue
         if k in ("ddl", "setup-insert", "insert"):
             if "ok" not in o:
                 R.property_fails(None, f"C09 step {i} `{st['sql'][:60]}` failed: {json.dumps(o)[:200]}", rep)
